@@ -96,7 +96,12 @@ def run(ctx):
             conv = [c for c, a in cs if c in (prog.inherent(pty.tykey, 'to_f64'),) or (c.endswith('::from') and 'From<%s> for f64' % pty.tykey in c)]
             disp = [c for c, a in cs if c.startswith('core::fmt::rt::Argument') and c.endswith('new_display') and any(x.get('ty') == 'f64' for x in a)]
             others = [c for c, a in cs if 'new_' in c and not c.endswith('new_display') and 'Arguments' not in c]
-            ok = len(conv) == 1 and len(disp) == 1 and not others
+            # every text-producing call: exactly one write_fmt of the `{}`-formatted f64, or a delegation to <f64 as Display>::fmt; nothing else
+            # (a second output path - e.g. a literal written for NaR - would not be parsed back by FromStr)
+            deleg = [c for c, a in cs if c.endswith('for f64>::fmt') and 'Display' in c]
+            outs = [c for c, a in cs if c.startswith('core::fmt::Formatter') and not c.endswith('::write_fmt')]
+            wf = [c for c, a in cs if c.startswith('core::fmt::Formatter') and c.endswith('::write_fmt')]
+            ok = len(conv) == 1 and not others and not outs and ((len(disp) == 1 and len(wf) == 1 and not deleg) or (len(deleg) == 1 and not wf and not disp))
         if ok:
             discharged += 1
         else:
